@@ -180,6 +180,23 @@ def build_cases(ck, tmp, variant=0):
             "suit-parameter-image-size": {"file": link}}}]}, {"suit-integrated-payloads": {"#fw": link}})
         cases.append((desc, {link: c}, {"kind": "file", "alg": alg, "size": len(c), "digest": HASH[ALG_ID[alg]](c), "len": len(c), "form": "symlink",
                                           "link": [link, real if k == 0 else os.path.basename(real), real]}))
+    # the referenced path goes through a symbolic link to a DIRECTORY and back up: <d>/lnk/../fw_through.bin with lnk -> store/deep is
+    # the file <d>/store/fw_through.bin for the operating system; <d>/fw_through.bin (what collapsing ".." textually gives) is another file
+    for k, alg in enumerate(algs[:2] if not ck.deep else algs):
+        c = blob(300 + 7 * k + variant, 120 + k + variant)
+        decoy = fpath(blob(41, 7 + k), "fw_through.bin")
+        d = os.path.dirname(decoy)
+        os.makedirs(os.path.join(d, "store", "deep"), exist_ok=True)
+        if not os.path.lexists(os.path.join(d, "lnk")):
+            os.symlink(os.path.join(d, "store", "deep") if k % 2 == 0 else os.path.join("store", "deep"), os.path.join(d, "lnk"))
+        with open(os.path.join(d, "store", "fw_through.bin"), "wb") as fh:
+            fh.write(c)
+        through = os.path.join(d, "lnk", "..", "fw_through.bin")
+        desc = base_env({"suit-install": [{"suit-directive-override-parameters": {
+            "suit-parameter-image-digest": {"suit-digest-algorithm-id": alg, "suit-digest-bytes": {"file": through}},
+            "suit-parameter-image-size": {"file": through}}}]}, {"suit-integrated-payloads": {"#fw": through}})
+        cases.append((desc, {through: c}, {"kind": "file", "alg": alg, "size": len(c), "digest": HASH[ALG_ID[alg]](c), "len": len(c), "form": "through a linked directory and back",
+                                             "dirlink": [os.path.join(d, "lnk"), os.path.join(d, "store", "deep"), os.path.join(d, "fw_through.bin")]}))
     # raw forms
     desc = base_env({"suit-install": [{"suit-directive-override-parameters": {
         "suit-parameter-image-digest": {"suit-digest-algorithm-id": "cose-alg-sha-256", "suit-digest-bytes": {"raw": "00" * 32}},
@@ -311,8 +328,16 @@ def replay(path):
         print("the failing create is part of a history (the same paths rewritten between creates in one process): re-running the histories")
         return run("quick", rec.get("seed", 0))
     link = (inp.get("expect") or {}).get("link")
+    dirlink = (inp.get("expect") or {}).get("dirlink")
+    if dirlink:
+        os.makedirs(dirlink[1], exist_ok=True)
+        if not os.path.lexists(dirlink[0]):
+            os.symlink(dirlink[1], dirlink[0])
+        with open(dirlink[2], "wb") as fh:
+            fh.write(b"decoy" * 8)
     for p, c in inp.get("files", {}).items():
-        os.makedirs(os.path.dirname(p), exist_ok=True)
+        if not dirlink:
+            os.makedirs(os.path.dirname(p), exist_ok=True)
         if link and p == link[0]:
             if os.path.lexists(p):
                 os.remove(p)
